@@ -119,6 +119,16 @@ def parse_trace(trace_path, root):
             pcounts[(sysname, path)] = pk
             events.append({"sys": sysname, "k": k, "pk": pk, "path": path[len(prefix):], "what": what,
                            "stable": ".tmp" not in os.path.basename(path)})
+    # temp files of atomic_write: the later rename tells which final name the bytes were meant for
+    dest = {}
+    for ln in lines:
+        m = RE_LINE.match(ln)
+        if m and m.group(1) == main and m.group(2) in ("rename", "renameat", "renameat2"):
+            ps = [x for x in RE_STR.findall(m.group(3)) if x.startswith(prefix)]
+            if len(ps) >= 2:
+                dest[ps[0][len(prefix):]] = ps[-1][len(prefix):]
+    for e in events:
+        e["dest"] = dest.get(e["path"], e["path"])
     return events, killed, [w[len(prefix):] for w in written]
 
 
@@ -416,7 +426,7 @@ class Case:
         sources = set(files)
         r = twin.run_step(self.inc, self.home, argv, sources)
         c = self.clean(files, argv)
-        if fault_run and self.sabotage and not self.sabotaged and r.code == 0 and argv[0] in ("build", "test"):
+        if fault_run and self.sabotage is True and not self.sabotaged and r.code == 0 and argv[0] in ("build", "test"):
             svs = sorted(k for k in r.outputs if k.endswith(".sv") and k in c.outputs)
             if svs:
                 r.outputs[svs[0]] = r.outputs[svs[0]][: len(r.outputs[svs[0]]) // 2]
@@ -506,6 +516,29 @@ def _run_history(seed, case, scratch, template_home, opts):
             apply_edit(C.inc, e)
             apply_edit_to_map(files, e)
         argv = st["cmd"]
+        if si in crash_steps and crash_budget > 0:
+            # make the traced step write files for the first time: variants rotate with the history index
+            Ps = H_at[si].P
+            t = Ps.opts["target"]
+            shape = ("all_outputs_deleted", "outputs_and_filelist_deleted", "some_outputs_deleted", "cold_cache_and_outputs_deleted")[(case + si) % 4]
+            extra = []
+            if t["type"] == "directory" and shape != "some_outputs_deleted":
+                extra.append({"op": "rm_dir", "path": t["path"]})
+                sm = Ps.opts.get("sourcemap_target", {})
+                if sm.get("type") == "directory":
+                    extra.append({"op": "rm_dir", "path": sm["path"]})
+            else:
+                outs = Ps.outputs()
+                frng.shuffle(outs)
+                extra += [{"op": "rm_output", "path": o} for o in outs[:max(2, len(outs) // 2)]]
+            if shape == "outputs_and_filelist_deleted":
+                extra.append({"op": "rm_output", "path": f"{Ps.name}.f"})
+            if shape == "cold_cache_and_outputs_deleted":
+                extra.append({"op": "rm_dir", "path": ".build"})
+            for e in extra:
+                apply_edit(C.inc, e)
+            st = dict(st, edits=st["edits"] + extra, kinds=st["kinds"] + [f"first_write:{shape}"])
+            C.bump(f"crash_step_shape_{shape}")
         history.append({"edits": st["edits"], "cmd": argv})
         sample["history"].append({"kinds": st["kinds"], "cmd": " ".join(argv)})
         if si in crash_steps and crash_budget > 0:
@@ -533,14 +566,34 @@ def _run_history(seed, case, scratch, template_home, opts):
 
 
 def pick_points(rng, events, n, hot=()):
+    """Selection when a step has more crash points than budget: half of the budget goes to first-time writes (the final name
+    does not exist before the command: deleted outputs, cold cache, new files), one per destination class first; then writes
+    to outputs deleted by this step, the first and the last point, the first point of every class (in-place output writes and
+    manifest/info first), then random."""
     idx = list(range(len(events)))
     if len(idx) <= n:
         return idx
-    chosen = {0, len(idx) - 1}
+    chosen = set()
+    fw = [i for i, e in enumerate(events) if e.get("first") and e["sys"] in ("write", "writev", "pwrite64")
+          and path_class(e["dest"]) in ("out_sv", "out_map", "filelist", "info", "manifest", "fragment")]
+    order = {"out_sv": 0, "out_map": 1, "manifest": 2, "info": 3, "filelist": 4, "fragment": 5}
+    seen_fw = set()
+    for i in sorted(fw, key=lambda i: (order[path_class(events[i]["dest"])], i)):
+        c = path_class(events[i]["dest"])
+        if c not in seen_fw and len(chosen) < (n + 1) // 2:
+            seen_fw.add(c)
+            chosen.add(i)
+    fw2 = [i for i in fw if i not in chosen]
+    rng.shuffle(fw2)
+    for i in fw2:
+        if len(chosen) < (n + 1) // 2:
+            chosen.add(i)
     for i, e in enumerate(events):
         if e["path"] in hot and e["sys"] == "write" and len(chosen) < n:
             chosen.add(i)
-    # always include the first write to every in-place output class
+    for i in (0, len(idx) - 1):
+        if len(chosen) < n:
+            chosen.add(i)
     seen_cls = set()
     prio = {("out_sv", "write"): 0, ("out_map", "write"): 1, ("filelist", "write"): 2, ("info", "write"): 3, ("manifest", "renameat"): 4,
             ("fragment", "unlink"): 5, ("manifest_tmp", "write"): 6, ("fragment", "renameat"): 7, ("lockfile", "write"): 8}
@@ -594,6 +647,10 @@ def crash_faults(C, rng, H, files, files0, history, st, argv, pre_edit_state, bu
     C.bump("crash_points_enumerated", len(events))
     for e in events:
         C.seen("crash_point_classes", f"{e['sys']}:{path_class(e['path'])}")
+        # first-time write: the final name the bytes are meant for does not exist before the command starts
+        e["first"] = e["sys"] in ("openat", "write", "writev", "pwrite64", "rename", "renameat", "renameat2", "fchmod") and \
+            not os.path.exists(os.path.join(C.snap, e["dest"]))
+    C.bump("crash_points_enumerated_first_write", sum(1 for e in events if e["first"]))
     post_snap = C.snap + "_post"
     snapshot(C.inc, post_snap)
     if os.environ.get("C05_DEBUG_DET"):
@@ -665,6 +722,19 @@ def crash_faults(C, rng, H, files, files0, history, st, argv, pre_edit_state, bu
         C.seen("crash_points_killed_classes", where)
         if at is None or at["sys"] != ev["sys"] or path_class(at["path"]) != path_class(ev["path"]):
             C.bump("crash_points_killed_elsewhere_than_planned")
+        if ev.get("first"):
+            C.bump("crash_points_killed_first_write")
+            C.seen("crash_points_killed_first_write_classes", f"{ev['sys']}:{path_class(ev['dest'])}")
+        if C.sabotage == "nonatomic_first_write" and ev.get("first") and ev["dest"] != ev["path"] and \
+                path_class(ev["dest"]) in ("out_sv", "out_map"):
+            # harness-side emulation of a first write that is not atomic: what the killed process had put into its temp file
+            # (nothing, when the kill landed before the data) appears under the final name
+            tmpf = os.path.join(C.inc, at["path"]) if at else None
+            if tmpf and os.path.basename(tmpf).startswith(".tmp") and os.path.dirname(at["path"]) == os.path.dirname(ev["dest"]) \
+                    and os.path.isfile(tmpf):
+                os.makedirs(os.path.dirname(os.path.join(C.inc, ev["dest"])), exist_ok=True)
+                os.replace(tmpf, os.path.join(C.inc, ev["dest"]))
+                C.bump("sabotage_applied")
         torn_desc = None
         if torn:
             want_full = os.path.join(post_snap, ev["path"])
@@ -682,12 +752,12 @@ def crash_faults(C, rng, H, files, files0, history, st, argv, pre_edit_state, bu
         r, c, mm = C.judge(f2, recovery, fault_run=True)
         C.bump("recovery_builds")
         C.bump(f"variant_{variant}")
-        fault = {"type": "crash", "step_cmd": argv, "syscall": ev["sys"], "when": ev["pk"] if ev["stable"] else ev["k"], "only_path": ev["stable"], "path": ev["path"], "torn": torn_desc,
+        fault = {"type": "crash", "step_cmd": argv, "syscall": ev["sys"], "when": ev["pk"] if ev["stable"] else ev["k"], "only_path": ev["stable"], "path": ev["path"], "dest": ev["dest"], "first_write": bool(ev.get("first")), "torn": torn_desc,
                  "variant": variant, "recovery_exit": r.code, "restored": r.restored}
         if len(sample["faults"]) < 10:
             sample["faults"].append(fault)
         phase = {"out_sv": "emit", "out_map": "emit", "filelist": "emit", "fragment": "blob", "fragment_tmp": "blob", "manifest": "manifest",
-                 "manifest_tmp": "manifest", "info": "info", "cache_other": "lock", "dot_build_other": "lock"}.get(path_class(ev["path"]), "other")
+                 "manifest_tmp": "manifest", "info": "info", "cache_other": "lock", "dot_build_other": "lock"}.get(path_class(ev["dest"]), "other")
         verdict(C, r, c, mm, ctrl_keys, fault, f"crash@{phase}{':torn' if torn_desc else ''}:then_{variant}", files0, history, variant, extra_edits,
                 recovery)
     restore(C.snap, C.inc)
@@ -707,9 +777,11 @@ def fault_signature(m, fault, scenario):
             return f"panic:damage:{fault['role']}:{fault['kind']}"
         return f"panic:{scenario}"
     cls = m["cls"]
+    if fault["type"] == "crash" and m["kind"] == "output_missing" and cls == "map":
+        return "output_missing:map:crash:map_not_regenerated"
     if fault["type"] == "crash":
         rel = m.get("rel") or ""
-        if rel and rel == fault.get("path"):
+        if rel and rel in (fault.get("path"), fault.get("dest")):
             return f"{m['kind']}:{cls}:crash:killed_output_accepted"
         if fault.get("variant") == "revert":
             return f"{m['kind']}:{cls}:crash:then_revert"
@@ -919,14 +991,18 @@ def main():
     nhist = args.budget("histories", 6, 30)
     opts = {
         "steps": args.budget("steps", 4, 8),
-        "crash": args.budget("crash", 4, 40),
+        "crash": args.budget("crash", 6, 40),
         "crash_steps": args.budget("crash_steps", 1, 2),
-        "crash_per_step": args.budget("crash_per_step", 4, 24),
+        "crash_per_step": args.budget("crash_per_step", 6, 24),
         "damage": args.budget("damage", 3, 7),
-        "sabotage": bool(int(args.extra.get("sabotage", 0))),
+        "sabotage": (args.extra.get("sabotage") if args.extra.get("sabotage") == "nonatomic_first_write"
+                     else bool(int(args.extra.get("sabotage", 0)))),
     }
     jobs = int(args.extra.get("jobs", min(12, os.cpu_count() or 4)))
-    if opts["sabotage"]:
+    if opts["sabotage"] == "nonatomic_first_write":
+        run.note("SELF-TEST: --set sabotage=nonatomic_first_write moves the killed process's temp file to the final name when the output "
+                 "did not exist before (harness-side emulation of a non-atomic first write); a violation is expected")
+    elif opts["sabotage"]:
         run.note("SELF-TEST: --set sabotage=1 truncates one recovered output before comparison; a violation is expected")
     work = [(args.seed, i, scratch, template_home, opts) for i in range(nhist)]
     with multiprocessing.Pool(jobs) as pool:
@@ -962,10 +1038,12 @@ def main():
         floors = [("recovery_compared", 1)]
     elif args.thorough():
         floors = [("crash_points_killed", 300), ("damage_cases", 60), ("recovery_compared", 350), ("recovery_succeeded", 250),
-                  ("recovery_outputs_compared", 3000), ("crash_points_killed_classes", 6), ("damaged_file_classes", 4)]
+                  ("recovery_outputs_compared", 3000), ("crash_points_killed_classes", 6), ("damaged_file_classes", 4),
+                  ("crash_points_killed_first_write", 150), ("crash_points_killed_first_write_classes", 4)]
     else:
-        floors = [("crash_points_killed", 8), ("damage_cases", 6), ("recovery_compared", 12), ("recovery_succeeded", 10),
-                  ("recovery_outputs_compared", 200), ("crash_points_killed_classes", 2), ("damaged_file_classes", 2)]
+        floors = [("crash_points_killed", 12), ("damage_cases", 6), ("recovery_compared", 12), ("recovery_succeeded", 10),
+                  ("recovery_outputs_compared", 200), ("crash_points_killed_classes", 2), ("damaged_file_classes", 2),
+                  ("crash_points_killed_first_write", 6), ("crash_points_killed_first_write_classes", 2)]
     run.finish(floors)
 
 
